@@ -54,7 +54,7 @@ func runC09(c *Ctx) {
 	// single writer of the mode field: the constructor, storing its bool parameter
 	nW := 0
 	var ctorFn *ssa.Function
-	for _, a := range w.FieldAccesses(m.Server, m.fNoUp) {
+	for _, a := range w.FieldAccesses(m.Owner(m.fNoUp), m.fNoUp) {
 		if a.Kind != "write" && a.Kind != "addr" && a.Kind != "addrcall" {
 			continue
 		}
@@ -73,7 +73,7 @@ func runC09(c *Ctx) {
 		ctor = ctorFn
 	}
 	nCW := 0
-	for _, a := range w.FieldAccesses(m.Server, m.fCache) {
+	for _, a := range w.FieldAccesses(m.Owner(m.fCache), m.fCache) {
 		if a.Kind != "mapwrite" {
 			continue
 		}
@@ -94,7 +94,7 @@ func runC09(c *Ctx) {
 					}
 					if p, ok := w.canon(fn, l.V).(*ssa.Parameter); ok && fn == ctorFn && l.Pol {
 						// it is the parameter stored into the mode field
-						for _, acc := range w.FieldAccesses(m.Server, m.fNoUp) {
+						for _, acc := range w.FieldAccesses(m.Owner(m.fNoUp), m.fNoUp) {
 							if st, ok := acc.Instr.(*ssa.Store); ok && acc.Fn == fn && st.Val == ssa.Value(p) {
 								return true
 							}
@@ -180,13 +180,13 @@ func runC09(c *Ctx) {
 
 	// ---- R4 ----
 	var remove *ssa.Function
-	for _, a := range w.FieldAccesses(m.Server, m.fCerts) {
+	for _, a := range w.FieldAccesses(m.Owner(m.fCerts), m.fCerts) {
 		if a.Kind == "mapdelete" {
 			remove = a.Fn
 		}
 	}
 	nDel := 0
-	for _, a := range w.FieldAccesses(m.Server, m.fCache) {
+	for _, a := range w.FieldAccesses(m.Owner(m.fCache), m.fCache) {
 		switch a.Kind {
 		case "mapdelete":
 			nDel++
@@ -256,7 +256,7 @@ func runC09(c *Ctx) {
 				callees[cal] = true
 			}
 		}
-		for _, a := range w.FieldAccesses(m.Server, m.fCache) {
+		for _, a := range w.FieldAccesses(m.Owner(m.fCache), m.fCache) {
 			if callees[a.Fn] && a.Kind == "write" {
 				if _, isMM := a.Instr.(*ssa.Store).Val.(*ssa.MakeMap); isMM {
 					ok = true
@@ -291,7 +291,8 @@ func shimSpec(c *Ctx, m *shimModel, onAgentCall func(method string, args []ssa.V
 		MaxDepth: 2,
 		NoInline: map[string]bool{},
 		FieldAtom: func(obj, field string) string {
-			if obj == "s" {
+			// the server's own field, or a field of the helper struct the server holds it in
+			if obj == "s" || (strings.HasPrefix(obj, "s.") && !strings.Contains(obj[2:], ".") && m.Owner(field) != m.Server) {
 				switch field {
 				case m.fNoUp:
 					return "noup"
